@@ -132,7 +132,7 @@ def run(ctx: Ctx):
     parse = ctx.func("GroFile.parse_atomline")
     readline = ctx.func("GroFile.readline")
     from ..util import persistent_state
-    persistent_state(ctx, "R14.5", [f_ for f_ in (ctx.repo.func(q_, required=False) for q_ in ('GroFile.__init__', 'GroFile._load_and_verify', 'GroFile._load_box_matrix', 'GroFile.close', 'GroFile._write_closing_info')) if f_ is not None], "opening and closing a coordinate file")
+    ctx.attempt("R14.5", lambda: persistent_state(ctx, "R14.5", [f_ for f_ in (ctx.repo.func(q_, required=False) for q_ in ('GroFile.__init__', 'GroFile._load_and_verify', 'GroFile._load_box_matrix', 'GroFile.close', 'GroFile._write_closing_info')) if f_ is not None], "opening and closing a coordinate file"))
 
     # ---------------------------------------------------------------- R14.1
     pm = parents_map(setup.node)
@@ -186,8 +186,9 @@ def run(ctx: Ctx):
         site = calls[0]
         g = guards_of(calls[0], pmi)
         ok = len(g) == 1 and norm(g[0][0]) in ("'r' in mode", "mode == 'r'", "mode.startswith('r')") and g[0][1]
-    ctx.ob("R14.2", init, site, ok, "opening in read mode always runs the verification "
-           "(guarded by nothing but the read-mode test)", node=site)
+    ctx.attempt("R14.2", lambda: ctx.ob("R14.2", init, site, ok, "opening in read mode always runs the verification "
+           "(guarded by nothing but the read-mode test)", node=site))
+
 
     cfg = CFG(load.node)
     dom = cfg.dominators()
@@ -222,8 +223,9 @@ def run(ctx: Ctx):
             or (isinstance(t, ast.Compare) and norm(t.left) in vars_ and len(t.ops) == 1
                 and isinstance(t.ops[0], ast.Eq) and isinstance(t.comparators[0], ast.Constant)
                 and t.comparators[0].value == "")
-    dominating_guard(load, cfg, exit_dom, lambda t: is_empty_test(t, title_vars),
-                     "an empty first line (empty file) is refused")
+    ctx.attempt("R14.2", lambda: dominating_guard(load, cfg, exit_dom, lambda t: is_empty_test(t, title_vars),
+                     "an empty first line (empty file) is refused"))
+
 
     # (b2) count parse
     ints = [c for c in calls_in(load.node) if call_name(c) == "int" and c.args
@@ -267,13 +269,15 @@ def run(ctx: Ctx):
     seeks = [c for c in calls_in(box.node) if call_name(c) == "seek_atom"]
     oks = bool(seeks) and norm(seeks[0].args[0]) in ("self._natoms", "self.natoms") \
         and cfgb.node_containing(seeks[0]).id in exb
-    ctx.ob("R14.2", box, seeks[0] if seeks else "seek to the box line", oks,
-           "the box line is looked for directly after the declared number of atom records", node=seeks[0] if seeks else box.node)
+    ctx.attempt("R14.2", lambda: ctx.ob("R14.2", box, seeks[0] if seeks else "seek to the box line", oks,
+           "the box line is looked for directly after the declared number of atom records", node=seeks[0] if seeks else box.node))
+
     line_vars = {norm(st.targets[0]) for st in walk_no_nested(box.node)
                  if isinstance(st, ast.Assign) and isinstance(st.value, ast.Call)
                  and call_name(st.value) in ("_readline", "readline")}
-    dominating_guard(box, cfgb, exb, lambda t: is_empty_test(t, line_vars),
-                     "a file that ends where the box line should be is refused")
+    ctx.attempt("R14.2", lambda: dominating_guard(box, cfgb, exb, lambda t: is_empty_test(t, line_vars),
+                     "a file that ends where the box line should be is refused"))
+
     ex = [c for c in calls_in(box.node) if call_name(c) == "extract_lattice_gro"]
     if not ex:
         ctx.ob("R14.2", box, "box parse", False, "the box line is parsed -- parse site not found", node=box.node)
@@ -317,36 +321,51 @@ def run(ctx: Ctx):
                 nsl += 1
                 if n is None or gid not in domp[n.id]:
                     okd = False
-    ctx.ob("R14.2", parse, guards[0] if guards else "line length test", okd and nsl >= 3,
+    ctx.attempt("R14.2", lambda: ctx.ob("R14.2", parse, guards[0] if guards else "line length test", okd and nsl >= 3,
            "every field extraction is dominated by the raising test 'line length == expected length'",
-           node=guards[0] if guards else parse.node, extraction_sites=nsl)
+           node=guards[0] if guards else parse.node, extraction_sites=nsl))
+
+
     # (e) records are parsed with the file's format
     cs = [c for c in calls_in(readline.node) if call_name(c) == parse.name]
     oke = bool(cs) and all(len(c.args) >= 2 and attr_chain(c.args[1]) == "self._format" or
                            any(k.arg == "format_dict" and attr_chain(k.value) == "self._format" for k in c.keywords)
                            for c in cs)
-    ctx.ob("R14.2", readline, cs[0] if cs else "record parse", oke,
+    ctx.attempt("R14.2", lambda: ctx.ob("R14.2", readline, cs[0] if cs else "record parse", oke,
            "records are parsed against the file's own format (fixed width), not re-guessed line by line",
-           node=cs[0] if cs else readline.node)
+           node=cs[0] if cs else readline.node))
+
+
 
     # ---------------------------------------------------------------- R14.3
     callers = who_calls(ctx.repo, "dump_lattice_gro")
     bad = [f for f, c in callers if f is None or f.qual != closing.qual]
-    ctx.ob("R14.3", closing, "callers of dump_lattice_gro: %s" % sorted({(f.qual if f else "<module>") for f, _ in callers}),
-           bool(callers) and not bad, "only the closing routine produces the box line", node=closing.node)
+    ctx.attempt("R14.3", lambda: ctx.ob("R14.3", closing, "callers of dump_lattice_gro: %s" % sorted({(f.qual if f else "<module>") for f, _ in callers}),
+           bool(callers) and not bad, "only the closing routine produces the box line", node=closing.node))
+
     callers2 = who_calls(ctx.repo, closing.name)
     bad2 = [f for f, c in callers2 if f is None or f.qual != close.qual]
-    ctx.ob("R14.3", close, "callers of %s: %s" % (closing.name, sorted({(f.qual if f else "<module>") for f, _ in callers2})),
-           bool(callers2) and not bad2, "the closing routine runs only from close()", node=close.node)
+    ctx.attempt("R14.3", lambda: ctx.ob("R14.3", close, "callers of %s: %s" % (closing.name, sorted({(f.qual if f else "<module>") for f, _ in callers2})),
+           bool(callers2) and not bad2, "the closing routine runs only from close()", node=close.node))
+
     # close() runs the closing routine exactly in write mode, then closes the handle
     pmcl = parents_map(close.node)
     cw = [c for c in calls_in(close.node) if call_name(c) == closing.name]
     from ..cfg import cguards_of, ctext
     gcl = cguards_of(cw[0], pmcl) if cw else []
     tr_, pr_ = ctext("'r' in self._file.mode")
-    ctx.ob("R14.3", close, cw[0] if cw else "closing call", gcl in ([ctext("'w' in self._file.mode")], [(tr_, not pr_)]),
+    # the write-mode test may sit in close() around the call or at the top of the closing routine (everything else in it
+    # then runs under that test)
+    mode_lit = ctext("'w' in self._file.mode")
+    pm_closing = parents_map(closing.node)
+    body_stmts = [s_ for s_ in walk_no_nested(closing.node) if isinstance(s_, (ast.Expr, ast.Assign, ast.AugAssign, ast.Raise))
+                  and not (isinstance(s_, ast.Expr) and isinstance(s_.value, ast.Constant))]
+    inside = bool(body_stmts) and all(mode_lit in cguards_of(s_, pm_closing, split=True) for s_ in body_stmts)
+    ctx.attempt("R14.3", lambda: ctx.ob("R14.3", close, cw[0] if cw else "closing call", gcl in ([mode_lit], [(tr_, not pr_)]) or (gcl == [] and inside),
            "closing a file opened for writing always writes the closing information (count back-fill and box line)",
-           node=cw[0] if cw else close.node)
+           node=cw[0] if cw else close.node))
+
+
     # no finaliser of a coordinate-file object completes a file the user never closed
     parser_classes = [k for k in ctx.repo.classes.values() if k.name in ("GroFile", "CoordinatesParser")]
     fin = []
@@ -362,10 +381,13 @@ def run(ctx: Ctx):
                         and any(isinstance(x, ast.Attribute) and x.attr in ("close", closing.name, "__exit__")
                                 for a_ in c.args for x in ast.walk(a_)):
                     fin.append(m_)
-    ctx.ob("R14.3", fin[0] if fin else close, "finalisers of the writer that close it: %s" % [d.qual for d in fin], not fin,
+    ctx.attempt("R14.3", lambda: ctx.ob("R14.3", fin[0] if fin else close, "finalisers of the writer that close it: %s" % [d.qual for d in fin], not fin,
            "a writer abandoned before close() stays incomplete: no __del__ of the file object (and no atexit / weakref.finalize callback) calls close() (which would "
            "back-fill the count and append the box line, turning a partial file into an accepted one)",
-           node=fin[0].node if fin else close.node)
+           node=fin[0].node if fin else close.node))
+
+
+
     # last write
     flat = stmts_sorted(closing.node)
     writes = [st for st in flat if isinstance(st, ast.Expr) and isinstance(st.value, ast.Call)
@@ -378,13 +400,17 @@ def run(ctx: Ctx):
         # and the box write is at the top level of the function body (unconditional once reached)
         from ..cfg import cguards_of, canon_test, parents_map as _pm
         empty_exit = {canon_test(ast.parse("self._natoms is None and self._current_atom == 0", mode="eval").body, False)}
-        okw = okw and set(cguards_of(dump_w[-1], _pm(closing.node))) <= empty_exit
-    ctx.ob("R14.3", closing, dump_w[-1] if dump_w else "box write", okw,
+        empty_exit |= {canon_test(ast.parse("self._current_atom == 0", mode="eval").body, False), ctext("'w' in self._file.mode")}
+        okw = okw and set(cguards_of(dump_w[-1], _pm(closing.node), split=True)) - {canon_test(ast.parse("self._natoms is None", mode="eval").body, False)} <= empty_exit \
+            and (set(cguards_of(dump_w[-1], _pm(closing.node))) <= empty_exit or set(cguards_of(dump_w[-1], _pm(closing.node), split=True)) <= empty_exit)
+    ctx.attempt("R14.3", lambda: ctx.ob("R14.3", closing, dump_w[-1] if dump_w else "box write", okw,
            "the box line is the last data written and is written unconditionally at the end of closing",
-           node=dump_w[-1] if dump_w else closing.node)
+           node=dump_w[-1] if dump_w else closing.node))
+
+
     # the set-up (first record) writes no box
     okn = not any(call_name(c) == "dump_lattice_gro" for c in calls_in(setup.node))
-    ctx.ob("R14.3", setup, "no box line at set-up", okn, "the header set-up writes title and count only", node=setup.node)
+    ctx.attempt("R14.3", lambda: ctx.ob("R14.3", setup, "no box line at set-up", okn, "the header set-up writes title and count only", node=setup.node))
     ctx.floor("R14.2", sum(1 for o in ctx.obligations if o.rule == "R14.2"), 9, "gauntlet obligations")
 
     # ---------------------------------------------------------------- R14.4
